@@ -37,13 +37,19 @@
        Ex + Ey of L - lengths[k-1], and the exact polyline length of the
        adjusted path is within A + Ex + Ey of L, A being a bound on the
        accumulated rounding error of the kept cumulative length.
+       For a zero seed, coordinates |c| <= 2^20, at most 2^50 vertices and
+       segments that are degenerate (equal end points) or at least 2^-10 long,
+       every cumulative length is the exact cumulative polyline length up to
+       the relative error alpha n = 3.01 * 2^-24 + 2 n * 2^-53, which
+       discharges A (C16_cumulative_lengths_ieee_bound,
+       C16_adjusted_length_ieee_bound_full).
    Still NOT proved (the property stays PARTIAL): monotonicity with a non-zero
    osu!-mode Catmull surplus (the surplus can be negative by rounding, "of the
-   order of 1e-5" in the property text); the accumulated rounding error A of
-   the running sums (a hypothesis of C16_adjusted_length_ieee_bound); and the
-   end-point bound outside its magnitude hypotheses (coordinates beyond 2^20,
-   segments shorter than 2^-10: see C16_underflow_witness for what happens at
-   the far end).  These are monitored by the oracle of harness/src/c16.rs
+   order of 1e-5" in the property text), and with it the accumulated error of
+   the running sums for a non-zero seed; the IEEE bounds outside their
+   magnitude hypotheses (coordinates beyond 2^20, non-degenerate segments
+   shorter than 2^-10: see C16_underflow_witness for what happens at the far
+   end).  These are monitored by the oracle of harness/src/c16.rs
    (cut/extension geometry in f64, lengths start at 0 / monotone within 1e-5 /
    finite, osu!-mode total unchanged); its end-point tolerance
    1e-3 + 4e-6 * magnitude (4e-6 = 67 * 2^-24) is wider than the proved bound
@@ -587,7 +593,7 @@ Print Assumptions C16_exact_cut_example.
 (* ================================================================== *)
 (* T16b-IEEE -- rounding error of the adjusted end point               *)
 (* ================================================================== *)
-From RM Require Import Proofs.AdjustIEEEBase Proofs.AdjustIEEE Proofs.AdjustIEEEEx.
+From RM Require Import Proofs.AdjustIEEEBase Proofs.AdjustIEEE Proofs.AdjustIEEESum Proofs.AdjustIEEEEx.
 Open Scope Z_scope.
 
 (* the hypotheses and the bound, spelled out.  Coordinates finite with
@@ -712,3 +718,71 @@ Example C16_ieee_end_point_dump :
   match adjust_end ex_path ex_lens 2 (D.of_Z 9) with Some q => dump_pos q | None => [] end
   = [S.bits (S.of_decimal false 45384617 (-7)); S.bits (S.of_decimal false 7692308 (-6))].
 Proof. exact ex_adjust_dump. Qed.
+
+(* ================================================================== *)
+(* the accumulated rounding error of the cumulative lengths (IEEE)     *)
+(* ================================================================== *)
+
+(* seg_ok a b: the two end points are numerically equal (the computed length
+   is then exactly 0) or at least 2^-10 apart; segs_ok: every segment;
+   alpha n = 3.01 * 2^-24 + 2 n * 2^-53;  lens_ok n xs cs: element by element,
+   x finite and x = c (1 + d), |d| <= alpha n *)
+Theorem C16_accumulated_error_definitions :
+  (forall a b, seg_ok a b <-> R2 a = R2 b \/ (Raux.bpow Zaux.radix2 (-10) <= edist (R2 a) (R2 b))%R) /\
+  (forall a b t, segs_ok (a :: b :: t) <-> seg_ok a b /\ segs_ok (b :: t)) /\
+  (forall n, alpha n = (3.01 * u32 + 2 * INR n * u64)%R) /\ u64 = (/ 9007199254740992)%R /\
+  (forall n xs cs, lens_ok n xs cs <->
+     Forall2 (fun x c => is_finite x = true /\ rel (B2R x) c (alpha n)) xs cs).
+Proof. split; [|split; [|split; [|split]]]; intros; reflexivity. Qed.
+Print Assumptions C16_accumulated_error_definitions.
+
+(* one segment: the widened binary32 length is the exact length up to 3.01 * 2^-24 *)
+Theorem C16_segment_length_ieee_bound :
+  forall a b, coord_le a 20 -> coord_le b 20 -> seg_ok a b ->
+  is_finite (f64_of_f32 (Curve.plen (psub b a))) = true /\
+  rel (B2R (f64_of_f32 (Curve.plen (psub b a)))) (edist (R2 a) (R2 b)) (3.01 * u32)%R.
+Proof. exact seg_rel. Qed.
+Print Assumptions C16_segment_length_ieee_bound.
+
+(* every cumulative length calculate_length computes (zero seed) against the
+   exact cumulative polyline length of the same f32 vertices: relative error
+   at most alpha n, n the number of vertices (at most 2^50), for coordinates
+   |c| <= 2^20 and segments that are degenerate or at least 2^-10 long *)
+Theorem C16_cumulative_lengths_ieee_bound :
+  forall path : list Pos,
+  Forall (fun p => coord_le p 20) path -> segs_ok path -> (length path <= 2 ^ 50)%nat ->
+  (poly_len (map R2 path) <= Raux.bpow Zaux.radix2 1000)%R ->
+  lens_ok (length path) (natural path D.zero) (cumlen (map R2 path)).
+Proof. exact natural_lengths_error. Qed.
+Print Assumptions C16_cumulative_lengths_ieee_bound.
+
+(* the length corollary with the hypothesis A discharged: the exact polyline
+   length of the adjusted path is within alpha n * c + Ex + Ey of L, c the
+   exact polyline length of the kept vertices *)
+Theorem C16_adjusted_length_ieee_bound_full :
+  forall (path : list Pos) k L pp pe lp c,
+  Forall (fun p => coord_le p 20) path -> segs_ok path -> (length path <= 2 ^ 50)%nat ->
+  (poly_len (map R2 path) <= Raux.bpow Zaux.radix2 1000)%R ->
+  (1 <= k < length path)%nat ->
+  nth_error path (Nat.pred k) = Some pp -> nth_error path k = Some pe ->
+  nth_error (natural path D.zero) (Nat.pred k) = Some lp ->
+  nth_error (cumlen (map R2 path)) (Nat.pred k) = Some c ->
+  is_finite L = true -> (0 <= B2R L - B2R lp <= Raux.bpow Zaux.radix2 20)%R ->
+  (Raux.bpow Zaux.radix2 (-10) <= edist (R2 pp) (R2 pe))%R ->
+  let Ex := E16 (Rabs (B2R (px pp))) (B2R L - B2R lp) in
+  let Ey := E16 (Rabs (B2R (py pp))) (B2R L - B2R lp) in
+  exists q, adjust_end path (natural path D.zero) k L = Some q /\
+    (Rabs (c - B2R lp) <= alpha (length path) * c)%R /\
+    (Rabs (poly_len (map R2 (firstn k path ++ [q])) - B2R L) <= alpha (length path) * c + Ex + Ey)%R.
+Proof. exact adjusted_length_ieee_bound_full. Qed.
+Print Assumptions C16_adjusted_length_ieee_bound_full.
+
+(* the hypotheses hold for (0,0) (3,4) (8,16); there the exact polyline length
+   of the path cut at L = 9 is within 5.7e-6 of 9 *)
+Example C16_accumulated_error_example :
+  (Forall (fun p => coord_le p 20) ex_path /\ segs_ok ex_path /\ (length ex_path <= 2 ^ 50)%nat /\
+   (poly_len (map R2 ex_path) <= Raux.bpow Zaux.radix2 1000)%R) /\
+  (exists q, adjust_end ex_path (natural ex_path D.zero) 2 (D.of_Z 9) = Some q /\
+     (Rabs (poly_len (map R2 (firstn 2 ex_path ++ [q])) - 9) <= 5.7 / 1000000)%R).
+Proof. split; [exact ex_path_hyps|exact ex_adjusted_length_full]. Qed.
+Print Assumptions C16_accumulated_error_example.
